@@ -77,7 +77,7 @@ func loadShared(repo string, pkgPaths []string, extDir string) (*Shared, error) 
 }
 
 func (sh *Shared) newEngine() *Engine {
-	e := &Engine{prog: sh.prog, pkgs: sh.pkgs, spkgs: sh.spkgs, fset: sh.prog.Fset, specs: sh.specs,
+	e := &Engine{sfUsed: map[*SpecFunc]bool{}, prog: sh.prog, pkgs: sh.pkgs, spkgs: sh.spkgs, fset: sh.prog.Fset, specs: sh.specs,
 		sc: &Script{seen: map[string]bool{}}, compSort: map[string]string{}, structs: map[string]*types.Struct{},
 		guards: map[string][]*GuardSpec{}, assumptions: map[string]bool{}, havocCallees: map[string]bool{},
 		extDefault: map[string]bool{}, errGlobals: map[string]int{}, modMemo: map[*ssa.Function]*modInfo{},
@@ -325,6 +325,7 @@ func (sh *Shared) verifyFunc(fn *ssa.Function, opt Options) (res *FuncResult) {
 	ob := &Obligation{Name: fr.prefix + "#canary", Kind: "canary", Func: fr.prefix, Reach: outReach, Formula: "false", At: len(e.sc.lines), Canary: true}
 	e.sc.obls = append(e.sc.obls, ob)
 
+	e.finalizeAxioms()
 	res.GenTime = time.Since(t0).Seconds()
 	res.Obligations = e.sc.obls
 	res.Assumptions = sortedKeys(e.assumptions)
